@@ -6,6 +6,8 @@ C10 - flags are well-typed, shared with tracts, and raised whenever warranted.
 (2) Trigger phrases: 22 phrases (singular / plural / upper-case / wrapped over a line break with extra blanks) inserted at every token boundary of 16 seed descriptions x
     {default, sec_within, both colon modes, every forced layout, ocr_scrub, clean_qq}: the corresponding warning flag
     must be present and one of its context strings must contain the triggering word.
+(4) Repetition: every seed followed by a respelled copy of itself (same sections; also under another township) x 8 modes: the
+    same flag arises twice with different context strings and the pairing invariants must hold.
 (3) Re-use: all sequences of up to 3 (quick) / 4 (thorough) tract-level re-parse operations (PLSSDesc.parse_tracts with and without
     overrides, TractList.parse_tracts, Tract.parse on each tract, PLSSDesc.parse) applied to each of 16 parsed seeds x 3 flag-raising
     suffixes x 2 modes: the typing / pairing / hand-down invariants must still hold afterwards.
@@ -88,6 +90,8 @@ def units(tier):
         us.append({'k': 'trigger', 'seed': n})
     for n in range(16):
         us.append({'k': 'seq', 'seed': n})
+    for n in range(16):
+        us.append({'k': 'repeat', 'seed': n})
     return us
 
 
@@ -249,8 +253,54 @@ def seq_histories(depth):
     return out[1:]
 
 
+def respell(text):
+    """The same description with its keywords and connectives written differently (so that the same flag is raised with a
+    different context string)."""
+    swaps = [('Sections ', 'Secs '), ('Section ', 'Sec. '), ('Secs ', 'Sections '), ('Sec ', 'Section '), (' - ', ' through '),
+             (' through ', ' - '), ('Lots ', 'Lot '), (' and ', ' & ')]
+    out, i = '', 0
+    while i < len(text):
+        for a, b in swaps:
+            if text.startswith(a, i):
+                out += b
+                i += len(a)
+                break
+        else:
+            out += text[i]
+            i += 1
+    return out
+
+
+REPEAT_EXTRA = [
+    'T154N-R97W Sec 14: That part of the NE/4 of Section 14 lying north of the river, and that part of the NW/4 of Sec. 14 lying '
+    'south of it, Sec 15: W/2',
+    'T154N-R97W Secs 1 - 3: ALL, T155N-R97W Sections 1-3: ALL',
+    'T154-R97 Sec 14: NE/4 less and except the wellbore, T154-R97 Sec 15: Less & Except the well bore',
+]
+
+
+def repeat_texts(seed_n):
+    """A seed followed by a respelled copy of itself (same sections and Twp/Rge), by a respelled copy under another township, and the
+    fixed texts: the same flag arises twice, with different context strings."""
+    layout, si, seed = soup.seeds()[seed_n]
+    r = respell(seed)
+    out = [seed + '\n' + r, seed + ', ' + r.replace('T154N', 'T155N').replace('Township 154', 'Township 155'), r + '\n' + seed]
+    if seed_n < len(REPEAT_EXTRA):
+        out.append(REPEAT_EXTRA[seed_n])
+    return out
+
+
+REPEAT_MODES = ['default', 'segment', 'sec_colon_cautious', 'sec_colon_required', 'cfg:TRS_desc', 'cfg:desc_STR', 'sec_within', 'clean_qq']
+
+
 def run_unit(unit, tier):
     acc = Acc()
+    if unit['k'] == 'repeat':
+        for text in repeat_texts(unit['seed']):
+            for mname in REPEAT_MODES:
+                judge(acc, text, soup.mode_by_name(mname))
+                acc.guard('repeat_checked')
+        return acc.result()
     if unit['k'] == 'seq':
         for hist in seq_histories(SEQ_DEPTH[tier]):
             for phrase in SEQ_PHRASES:
@@ -282,7 +332,7 @@ def replay(case):
 def guards(info):
     g = info['guards']
     out = []
-    for name in ('error_flag_seen', 'warning_flag_seen', 'tract_flag_seen', 'trigger_ok', 'seq_flags_checked'):
+    for name in ('error_flag_seen', 'warning_flag_seen', 'tract_flag_seen', 'trigger_ok', 'seq_flags_checked', 'repeat_checked'):
         if not g.get(name):
             out.append(f"never observed: {name}")
     return out
